@@ -162,54 +162,31 @@ theorem wf_VCardPhone : VCardPhone.WF := by decide
 theorem wf_PubSubSubscription : PubSubSubscription.WF := by decide
 theorem wf_PubSubSubscriptionEvent : PubSubSubscriptionEvent.WF := by decide
 theorem wf_PubSubSubscriptionOwner : PubSubSubscriptionOwner.WF := by decide
-/-! ## defect of today's code: data forms
+theorem wf_DataForm : DataForm.WF := by decide
+theorem wf_MucOwnerIq : MucOwnerIq.WF := by decide
+theorem wf_DiscoInfoIq : DiscoInfoIq.WF := by decide
+theorem wf_DiscoItemsIq : DiscoItemsIq.WF := by decide
+theorem wf_MamQueryIq : MamQueryIq.WF := by decide
 
-The five classes that contain a data form (`DataForm`, `MucOwnerIq`, `DiscoInfoIq`, `DiscoItemsIq`, `MamQueryIq`) are
-modelled AS THE CODE IS (`dataFormFieldsCode`); they are not well-formed and have no `wf_` theorem until
-fixes/C01-dataform-empty-value.diff is applied.  `DataFormFixed` is the repaired class. -/
-
-theorem wf_DataFormFixed : DataFormFixed.WF := by decide
-
-/-- today's `QXmppDataForm` is not a well-formed codec -/
-theorem C01_defect_dataform_not_wf : ¬ DataForm.WF := by decide
+/-! ## data forms: the value that did not survive before /repo 06b3045 -/
 
 /-- a submit form with one text-single field `var="a"` whose value is the empty, non-null string (`<value/>`) -/
 def formWitness : List Val := [.record [.opt (some 1), .record [.str []], .record [.str []],
   .list [.record [.record [.nat 9, .str [], .list []], .str [], .str "a".toList, .record [.str []], .absent]]]]
 
-/-- how many child elements the first `<field/>` of a holder document has -/
-def firstFieldKids (n : Node) : Nat :=
-  match n.kids with
-  | x :: _ => match x.kids with
-    | f :: _ => f.kids.length
-    | [] => 0
-  | [] => 0
-
-/-- **Defect (recorded finding `C01:field-mismatch:DataForm:form.3.*.0.1`; same cause as the recorded
-`C01:own-form-roundtrip:QXmppPubSubMetadata` / `…NodeConfig` / `…PublishOptions` / `…SubAuthorization` /
-`QXmppMixConfigItem` / `QXmppMixInfoItem`).**  `decode (encode v) = v` fails for today's `QXmppDataForm`: the empty
-non-null value is not written (`<field type="text-single" var="a"/>`, no `<value/>`) and reads back as a NULL value —
-for the classes built on data forms a field with a null value does not exist, so they drop it on the next pass. -/
-theorem C01_defect_dataform_empty_value :
-    ¬ (∀ v, DataForm.Canon v → DataForm.decode (DataForm.encode v) = v) := by
-  intro h
-  have h1 := h formWitness (by decide)
-  -- re-encoding what was read with the REPAIRED writer shows no <value/>: the value read back is null
-  have h2 : firstFieldKids (DataFormFixed.encode (DataForm.decode (DataForm.encode formWitness))) = 0 := by decide +kernel
-  rw [h1] at h2
-  revert h2
-  decide +kernel
-
-/-- …and the repaired class keeps it (instance of `decode_encode`) -/
-example : DataFormFixed.decode (DataFormFixed.encode formWitness) = formWitness :=
-  decode_encode DataFormFixed wf_DataFormFixed formWitness (by decide)
+/-- it is a canonical value of the class as it is now, so `decode_encode` covers it (fixed findings
+C01:field-mismatch:DataForm:form.3.*.0.1 and relatives) -/
+example : DataForm.decode (DataForm.encode formWitness) = formWitness :=
+  decode_encode DataForm wf_DataForm formWitness (by decide)
+/-- the behaviour before the repair (a single value written only when non-EMPTY) is not a well-formed codec -/
+example : ¬ DataFormOld.WF := by decide
 
 /-- a MAM query with query id "q1" and nothing else: the value that did not survive before /repo dfee378 (fixed finding
-C01:field-mismatch:MamQueryIq:queryId); the query id survives now (the class as a whole is not well-formed today because
-of the data form it embeds, see above) -/
+C01:field-mismatch:MamQueryIq:queryId) -/
 def mamWitness : List Val := [.str [], .str "q1".toList, .record [.opt none, .record [.str []], .record [.str []], .list []],
   .record [.record [.opt none], .absent, .absent, .record [.opt none]]]
-example : ((MamQueryIq.decode (MamQueryIq.encode mamWitness)).getD 1 .absent).getStr = "q1".toList := by decide +kernel
+example : MamQueryIq.decode (MamQueryIq.encode mamWitness) = mamWitness :=
+  decode_encode MamQueryIq wf_MamQueryIq mamWitness (by decide)
 
 /-! ## a recorded limitation of `QXmppStanza::Error` -/
 
